@@ -351,16 +351,19 @@ def good_state(root, ds, doc=DOC):
     return None
 
 
-def partial_under_final_name(root, ds, initial, published_doc, published_archive):
-    """the download target holds its initial content or the complete file"""
+def partial_under_final_name(root, ds, initial, published_doc, published_archive, declared=False):
+    """the download target holds its initial content or the complete file (a complete response of another length only if the track
+    declares no size to compare with)"""
     target = ds.document_archive if ds.document_archive else ds.document_file
     p = os.path.join(root, target)
     if not os.path.exists(p):
         return None
     data = open(p, "rb").read()
     complete = published_archive if ds.document_archive else published_doc
-    if data == complete or data == initial.get(target) or data == OTHER:
+    if data == complete or data == initial.get(target) or (data == OTHER and not declared):
         return None
+    if data == OTHER:
+        return ("wrong-sized-download-under-final-name", f"{target} holds {len(data)} bytes (a complete response of the wrong length) although the track declares {len(complete)} bytes")
     return ("partial-download-under-final-name", f"{target} holds {len(data)} bytes: neither its initial content ({len(initial.get(target) or b'')} bytes) nor the complete file ({len(complete)} bytes)")
 
 
@@ -429,7 +432,7 @@ def l1_check(case, res):
             if not isinstance(exc, Exception):
                 v = ("no-explicit-error", f"{outcome}")
         if v is None:
-            v = partial_under_final_name(root, ds, initial, DOC, archive)
+            v = partial_under_final_name(root, ds, initial, DOC, archive, declared)
         if v is None and outcome == "raised":
             # liveness anchors: a healthy environment must lead to success
             healthy_local = doc_state == "correct" or (fmt and arch_state == "correct" and doc_state == "absent")
